@@ -26,6 +26,8 @@ mod c17;
 #[cfg(kani)]
 pub mod sgen;
 #[cfg(kani)]
+pub mod hgen;
+#[cfg(kani)]
 mod warmup {
     kproof!(warmup, 4, {
         let x: u8 = kani::any();
